@@ -7,6 +7,8 @@ import Nsq.Model.PQ
 import Nsq.Model.Timing
 import Nsq.Model.TimingOpts
 import Nsq.Model.Wire
+import Nsq.Model.WireStackLine
+import Nsq.Tie.WireStackTree
 /-! Driver for engine E1 (codec / numeric / timing): one operation per input line, one canonical
 answer line out. The only state kept between lines is the channel of the `ch …` operations. -/
 open Nsq Nsq.Line
@@ -259,6 +261,7 @@ def stepLine (line : String) : String :=
       | .error .badBody => "E_BAD_BODY"
       | .error .badMessage => "E_BAD_MESSAGE"
     | _, _, _ => "bad-op"
+  | "stack" :: toks => Nsq.Model.WireStack.stackLine Nsq.Tie.WireStack.treeFixed toks
   | "bufw" :: cap :: ops =>
     match cap.toNat? with
     | some cap =>
